@@ -726,4 +726,38 @@ theorem readK_append : ∀ (a b : List Bytes) (j : Json), readK (a ++ b) j = rea
     | str s => cases b <;> rfl
     | arr xs => cases b <;> rfl
 
+theorem hasNoneO_lookup {kvs : Obj} (h : hasNoneO kvs = false) {k : Bytes} {v : Json} (hl : lookup k kvs = some v) :
+    hasNone v = false := by
+  induction kvs with
+  | nil => simp [lookup] at hl
+  | cons p r ih =>
+    obtain ⟨k', v'⟩ := p
+    simp only [hasNoneO, Bool.or_eq_false_iff] at h
+    by_cases hk : k = k'
+    · subst hk; rw [lookup_cons_eq] at hl; injection hl with hl; rw [← hl]; exact h.1
+    · rw [lookup_cons_ne hk] at hl; exact ih h.2 hl
+
+/-- on a value without placeholders, has() is exactly "the const read is defined" -/
+theorem has_iff_defined : ∀ (ks : List Bytes) (j : Json), hasNone j = false →
+    (hasK ks j = true ↔ readK ks j ≠ .none)
+  | [], j, hn => by
+    rw [readK_nil]
+    constructor
+    · intro _ e; subst e; simp [hasNone] at hn
+    · intro _; simp [hasK]
+  | k :: ks, j, hn => by
+    cases j with
+    | obj kvs =>
+      rw [hasK_cons_obj, readK_cons_obj]
+      cases hl : lookup k kvs with
+      | none => simp
+      | some v =>
+        simp only []
+        exact has_iff_defined ks v (hasNoneO_lookup (by simpa [hasNone] using hn) hl)
+    | none => simp [hasNone] at hn
+    | null => simp [hasK, readK]
+    | num p => simp [hasK, readK]
+    | str s => simp [hasK, readK]
+    | arr xs => simp [hasK, readK]
+
 end Occa.Json
